@@ -843,6 +843,8 @@ fn entry_op<P: HP>(e: Entry<'_, P, i64>, t: &[&str]) -> String {
         }
         ["or_default"] => e.or_default().show(),
         ["or_insert_with_panic"] => e.or_insert_with(|| panic!("{}", INJECTED)).show(),
+        // the closure panics when it is called, i.e. when the entry is occupied
+        ["and_modify_panic", rest @ ..] => entry_op(e.and_modify(|_| panic!("{}", INJECTED)), rest),
         ["and_modify", d, rest @ ..] => {
             let d = parse_i(d).unwrap();
             entry_op(e.and_modify(|x| *x += d), rest)
@@ -988,24 +990,39 @@ fn map_op<P: HP>(m: &mut PrefixMap<P, i64>, op: &str, a: &[&str]) -> String {
             let stop: Option<usize> = toks[toks.len() - 1].parse().ok();
             let Some(pred) = parse_pred(&toks[..toks.len() - 1]) else { return "bad-op".into() };
             let calls: RefCell<Vec<(P, i64)>> = RefCell::new(Vec::new());
+            let rejected: RefCell<Vec<String>> = RefCell::new(Vec::new());
+            let before: Vec<String> = m.iter().map(|(p, x)| fpv(p, x)).collect();
             let r = catch_unwind(AssertUnwindSafe(|| {
                 m.retain(|p, v| {
                     if Some(calls.borrow().len() + 1) == stop {
                         panic!("{}", INJECTED);
                     }
                     calls.borrow_mut().push((p.clone(), *v));
-                    pred.eval(p.prefix_len(), *v)
+                    let keep = pred.eval(p.prefix_len(), *v);
+                    if !keep {
+                        rejected.borrow_mut().push(fpv(p, v));
+                    }
+                    keep
                 })
             }));
             let calls = calls.into_inner();
+            // the property in the implementation's own terms: afterwards the map holds exactly the entries it held
+            // before minus those for which the predicate has returned false (whatever the order of the calls,
+            // also when the predicate panicked), and every call was on a stored entry, each at most once
+            let rejected = rejected.into_inner();
+            let expected: Vec<String> = before.iter().filter(|e| !rejected.contains(e)).cloned().collect();
+            let after: Vec<String> = m.iter().map(|(p, x)| fpv(p, x)).collect();
+            let mut seen = HashSet::new();
+            let calls_ok = calls.iter().all(|(p, x)| before.contains(&fpv(p, x)) && seen.insert(fpv(p, x)));
+            let consistent = if expected == after && calls_ok { "consistent=ok" } else { "consistent=BROKEN" };
             let mut sorted = calls.clone();
             sorted.sort_by(|x, y| (x.0.netraw(), x.0.prefix_len()).cmp(&(y.0.netraw(), y.0.prefix_len())));
             let f = |v: &Vec<(P, i64)>| flist(v.iter().map(|(p, x)| fpv(p, x)).collect());
             match r {
-                Ok(()) => format!("calls={};sorted={};done", f(&calls), f(&sorted)),
+                Ok(()) => format!("calls={};sorted={};done;{}", f(&calls), f(&sorted), consistent),
                 Err(e) => {
                     if e.downcast_ref::<String>().map(|s| s == INJECTED).unwrap_or(false) {
-                        format!("calls={};sorted={};panic", f(&calls), f(&sorted))
+                        format!("calls={};sorted={};panic;{}", f(&calls), f(&sorted), consistent)
                     } else {
                         std::panic::resume_unwind(e)
                     }
@@ -1217,24 +1234,36 @@ fn set_op<P: HP>(s: &mut PrefixSet<P>, op: &str, a: &[&str]) -> String {
             let stop: Option<usize> = toks[toks.len() - 1].parse().ok();
             let Some(pred) = parse_pred(&toks[..toks.len() - 1]) else { return "bad-op".into() };
             let calls: RefCell<Vec<P>> = RefCell::new(Vec::new());
+            let rejected: RefCell<Vec<String>> = RefCell::new(Vec::new());
+            let before: Vec<String> = s.iter().map(|p| fp(p)).collect();
             let r = catch_unwind(AssertUnwindSafe(|| {
                 s.retain(|p| {
                     if Some(calls.borrow().len() + 1) == stop {
                         panic!("{}", INJECTED);
                     }
                     calls.borrow_mut().push(p.clone());
-                    pred.eval(p.prefix_len(), 0)
+                    let keep = pred.eval(p.prefix_len(), 0);
+                    if !keep {
+                        rejected.borrow_mut().push(fp(p));
+                    }
+                    keep
                 })
             }));
             let calls = calls.into_inner();
+            let rejected = rejected.into_inner();
+            let expected: Vec<String> = before.iter().filter(|e| !rejected.contains(e)).cloned().collect();
+            let after: Vec<String> = s.iter().map(|p| fp(p)).collect();
+            let mut seen = HashSet::new();
+            let calls_ok = calls.iter().all(|p| before.contains(&fp(p)) && seen.insert(fp(p)));
+            let consistent = if expected == after && calls_ok { "consistent=ok" } else { "consistent=BROKEN" };
             let mut sorted = calls.clone();
             sorted.sort_by(|x, y| (x.netraw(), x.prefix_len()).cmp(&(y.netraw(), y.prefix_len())));
             let f = |v: &Vec<P>| flist(v.iter().map(|p| fpv(p, &())).collect());
             match r {
-                Ok(()) => format!("calls={};sorted={};done", f(&calls), f(&sorted)),
+                Ok(()) => format!("calls={};sorted={};done;{}", f(&calls), f(&sorted), consistent),
                 Err(e) => {
                     if e.downcast_ref::<String>().map(|s| s == INJECTED).unwrap_or(false) {
-                        format!("calls={};sorted={};panic", f(&calls), f(&sorted))
+                        format!("calls={};sorted={};panic;{}", f(&calls), f(&sorted), consistent)
                     } else {
                         std::panic::resume_unwind(e)
                     }
